@@ -1,8 +1,10 @@
 package cluster
 
 import (
+	"net"
 	"strconv"
 	"sync"
+	"time"
 
 	"github.com/Shopify/sarama"
 )
@@ -81,11 +83,25 @@ type Cluster struct {
 func tpKey(topic string, partition int32) string { return topic + "/" + strconv.Itoa(int(partition)) }
 
 // New starts nBrokers (1 or 2) mock brokers serving the given topics; partition p of every topic starts on
-// broker p mod nBrokers.
+// broker p mod nBrokers. It returns nil when no listener could be opened.
 func New(nBrokers int, topics map[string]int, script []Fault) *Cluster {
 	c := &Cluster{topics: topics, leader: map[string]int{}, script: script, Logs: map[string][]Appended{}, pid: 4711}
 	for i := 0; i < nBrokers; i++ {
-		b := sarama.NewMockBroker(quietReporter{}, int32(i+1))
+		// listen ourselves: on a loaded machine the ephemeral ports can run out for a moment, and the mock broker's
+		// constructor cannot report that through a reporter that does not abort
+		var ln net.Listener
+		var err error
+		for try := 0; try < 50; try++ {
+			if ln, err = net.Listen("tcp", "localhost:0"); err == nil {
+				break
+			}
+			time.Sleep(100 * time.Millisecond)
+		}
+		if err != nil {
+			c.Close()
+			return nil
+		}
+		b := sarama.NewMockBrokerListener(quietReporter{}, int32(i+1), ln)
 		idx := i
 		b.VerifProdSetHandler(func(kind string, body interface{}) interface{} { return c.handle(idx, kind, body) })
 		c.Brokers = append(c.Brokers, b)
